@@ -45,6 +45,7 @@ var (
 	ErrInvalidBlockTimestamp               = errors.New("invalid block timestamp")
 	ErrInvalidWarpSignature                = errors.New("invalid warp signature")
 	ErrInvalidSignatureType                = errors.New("invalid signature type")
+	ErrExpiredChunkCert                    = errors.New("expired chunk certificate")
 )
 
 type ChainState interface {
@@ -334,6 +335,11 @@ func (n *Node[T]) Verify(ctx context.Context, parent Block, block Block) error {
 			n.chainState,
 		); err != nil {
 			return fmt.Errorf("%w %s: %w", ErrInvalidWarpSignature, chunkCert.ChunkID, err)
+		}
+		// An expired chunk is no longer tracked by the validity window, so it must never be
+		// referenced again (BuildBlock applies the same filter).
+		if chunkCert.Expiry < block.Timestamp {
+			return fmt.Errorf("%w %s: expiry %d < block timestamp %d", ErrExpiredChunkCert, chunkCert.ChunkID, chunkCert.Expiry, block.Timestamp)
 		}
 	}
 
